@@ -385,6 +385,90 @@ func runC18(p *core.Prog, r *core.Report, tier string) {
 				"map "+op.Kind+" under the service's mutex", "map "+op.Kind+" on "+mapField.String()+" without the mutex held (write lock for writes)")
 		}
 	}
+	c18Fetcher(p, r, ds)
+}
+
+// c18Fetcher: the header provider the cache falls back on answers the request it was given. In the strategies
+// that implement eth2client.BeaconBlockHeadersProvider: (f1) the nodes are asked with the caller's own options;
+// (f2) a node's successful answer is always passed on (none is dropped on grounds of its content); (f3) requests
+// are not coalesced under a key that does not identify the block asked for (a shared in-flight result would pair
+// one root with another block's slot, and the cache then keeps that pair).
+func c18Fetcher(p *core.Prog, r *core.Report, ds *core.Describer) {
+	nAsk, nFlight := 0, 0
+	for _, f := range p.SrcFuncs() {
+		if !strings.HasPrefix(core.RelPkg(f.Pkg.Pkg.Path()), "strategies/beaconblockheader/") {
+			continue
+		}
+		top := f
+		for top.Parent() != nil {
+			top = top.Parent()
+		}
+		for _, ci := range core.Calls(f, func(c *ssa.CallCommon) bool { return c.IsInvoke() && c.Method.Name() == "BeaconBlockHeader" }) {
+			call, ok := ci.(*ssa.Call)
+			if !ok {
+				continue
+			}
+			nAsk++
+			// f1: options
+			args := call.Call.Args
+			od := ds.D(args[len(args)-1])
+			isOwn := false
+			for _, prm := range top.Params {
+				if od.Kind == "param" && od.Name == prm.Name() || od.String() == "var:"+prm.Name() || od.String() == prm.Name() {
+					isOwn = true
+				}
+			}
+			r.Check(isOwn, "C18.f", fmt.Sprintf("%s|asks-with-own-options#%d", core.FnKey(f), nAsk), p.Pos(call.Pos()), "the node is asked with the caller's options", "the node is asked with "+od.String()+" instead of the caller's options: the header of another block can be returned for the root asked for")
+			// f2: a successful answer is always passed on
+			errV := core.ExtractOf(call, 1)
+			failed := guardEdges(ds, f, func(c core.Cond) int {
+				sx := core.ErrNilSucc(c, errV)
+				if sx < 0 {
+					return -1
+				}
+				return 1 - sx
+			})
+			passes := func(in ssa.Instruction) bool {
+				switch x := in.(type) {
+				case *ssa.Send:
+					return true
+				case *ssa.Return:
+					// a direct return of the response
+					for _, res := range x.Results {
+						if ds.D(res).MentionsValue(call) {
+							return true
+						}
+					}
+				}
+				return false
+			}
+			w := core.PathQuery{Fn: f, From: call, Target: core.IsReturn, Avoid: passes, Edge: func(b *ssa.BasicBlock, succ int) bool {
+				if sx, ok := failed[b]; ok && sx == succ {
+					return false
+				}
+				return true
+			}}.Find()
+			r.Check(w == nil && errV != nil, "C18.f", fmt.Sprintf("%s|passes-on-every-answer#%d", core.FnKey(f), nAsk), p.Pos(call.Pos()), "a node's successful answer is always passed on",
+				"a node's successful answer can be dropped (a path from the err == nil edge ends without sending or returning it): for such blocks the lookup times out instead of returning the block's slot", p.WitnessText(w)...)
+		}
+	}
+	r.Floor("C18.f header requests to nodes", nAsk, 1)
+	// f3: coalescing keys
+	for _, f := range p.SrcFuncs() {
+		for _, ci := range core.Calls(f, func(c *ssa.CallCommon) bool {
+			callee := c.StaticCallee()
+			return callee != nil && callee.Signature.Recv() != nil && strings.HasSuffix(callee.Signature.Recv().Type().String(), "singleflight.Group") && (callee.Name() == "Do" || callee.Name() == "DoChan")
+		}) {
+			nFlight++
+			kd := ds.D(ci.Common().Args[1])
+			fromRequest := kd.Any(func(x *core.VD) bool { return x.Kind == "param" })
+			r.Check(fromRequest, "C18.f", fmt.Sprintf("%s|coalescing-key#%d", core.FnKey(f), nFlight), p.Pos(ci.Pos()), "requests are coalesced under a key taken from the request",
+				"requests are coalesced under the key "+kd.String()+", which does not identify what is asked for: a caller asking about one block receives the in-flight answer for another")
+		}
+	}
+	if nFlight == 0 {
+		r.Hold("C18.f", "no-request-coalescing", "", "no request coalescing (singleflight) in the program")
+	}
 }
 
 // slotValueOK decides C18.a for one returned value.
